@@ -230,6 +230,23 @@ ROUND6 = {
     "C17": " R-C17-OWN: each recorded entry is created and decided in its artifact's own pass (24 bodies); the cached table holds what its size claims (shared with C10).",
     "C18": " R-C18-NEXT: next() needs a default or an endless iterator; R-C18-JACOBIAN: no all-zero Jacobian triple reaches the conversion (shared with C11).",
 }
+ROUND7 = {
+    "C01": " Records are looked up by exactly their own name and updated in place; the stored factor set is a union (shared with C16).",
+    "C03": " R-C03-RECORD: the helpers the two checks record through (exact lookup, update of an existing record, union of factor sets) - shared with C16 / C01.",
+    "C04": " R-C04-ALWAYS: every key of a batch is searched in every call; R-C04-RECORD: recording helpers (shared).",
+    "C07": " R-C07-REPEAT: identical EC keys do not accuse each other (shared with C10) and no check keeps state that accuses a re-scanned key (shared with C17).",
+    "C08": " R-C08-WEIGHT: the default lattice weight per sample count equals the validated ladder; the batched doubling / addition formulas under the comb are exact (shared with C11).",
+    "C10": " R-C10-ARITH: the x-only batched additions the searches compare with agree with Add in every special case (shared with C11).",
+    "C12": " The block-frequency ladder doubles exactly while n // m >= 100.",
+    "C13": " R-C13-HOLDOUT: FindBias measures the bias on blocks the multiplier was not fitted on.",
+    "C14": " R-C14-SCATTER: each scattered sub-sequence is analysed with its own length; closed forms that are not in provable shape are evaluated on a grid for counterexamples.",
+    "C16": " GetHighestSeverity takes the maximum over positive entries only; both lookups match names exactly; AttachInfo updates existing records.",
+    "C17": " The batch accumulator never steers how an artifact is examined.",
+    "C18": " R-C18-SANITY: the U2F sub-problem only yields pairs on which the relation was tested (no ArithmeticError from the consumer's sanity check).",
+    "C19": " R-C19-TREE / R-C19-FISHER: product trees and the Fisher combination (shared with C03 / C13).",
+}
+for _pid, _extra in ROUND7.items():
+  ROUND6[_pid] = ROUND6.get(_pid, "") + _extra
 for _pid, _extra in ROUND6.items():
   ROUND5[_pid] = ROUND5.get(_pid, "") + _extra
 for _pid, _extra in ROUND5.items():
